@@ -1,7 +1,9 @@
 (* GENERATED on every run by translate/options2coq.py from src/IO/ProgramOptions.cpp
    (constructor, parse, save(std::string)). Do not edit. *)
 From Coq Require Import List String ZArith.
+From Coq Require Ascii.
 From Inovesa Require Import Model.OptionsTypes.
+From Inovesa Require Model.CfgText.
 Import ListNotations.
 Local Open Scope string_scope.
 
@@ -85,3 +87,6 @@ Definition gen_wrules : wrules := mkW
   [TFloat; TDouble; TI32; TU32; TI64; TBool; TVecFloat]
   true
   ["config"].
+
+(* save(): the `ofs << ...` chain that writes a string option, operand by operand (Model/CfgText.v) *)
+Definition gen_string_line : list CfgText.wpiece := [CfgText.WName; CfgText.WLit [Ascii.ascii_of_nat 61]; CfgText.WVal; CfgText.WEndl].
